@@ -53,6 +53,8 @@ Definition RE_MISMATCH := 19.    (* RuntimeError: Mismatch between query marker 
 Definition RE_QNORM := 20.       (* RuntimeError: query data normalization is ... *)
 Definition RE_RNORM := 21.       (* RuntimeError: reference data normalization is ... *)
 Definition RE_DATAINDEX := 22.   (* IndexError in data[idx, :] / data[:, idx] (cannot happen on a well-shaped matrix) *)
+Definition RE_ZEROGENES := 23.   (* ValueError: zero-size array to reduction operation minimum which has no identity:
+                                    aggregate_stats, result['gt0'].min() on a statistics file without any gene (audit 3) *)
 
 (* ------------------------------------------------------------------ the statistics file *)
 Record sfile := mk_sfile {
@@ -90,11 +92,20 @@ Fixpoint raw_stats (sf : sfile) (c2r : list (Z * Z)) : option (list (Z * (Z * li
 
 Definition is_some {X} (o : option X) : bool := match o with Some _ => true | None => false end.
 
-(* aggregate_stats(leaf_population): precomputed_stats[leaf_population[0]] first, then every leaf *)
+(* n_genes = len(precomputed_stats[leaf]['sum']) is 0 *)
+Definition zero_row (cs : list (Z * (Z * list Z))) (leaf : Z) : bool :=
+  match zassoc leaf cs with Some (_, []) => true | _ => false end.
+(* aggregate_stats(leaf_population): precomputed_stats[leaf_population[0]] first (n_genes is read
+   there), then every leaf, then choose_int_dtype((result[k].min(), result[k].max())) on arrays
+   of n_genes entries: with n_genes = 0 numpy raises ValueError (zero-size array to reduction
+   operation minimum).  Observed: a 0-gene file makes get_leaf_means raise that ValueError, with
+   or without for_marker_selection; a 1-gene file is accepted. *)
 Definition agg_check (cs : list (Z * (Z * list Z))) (pop : list Z) : rres unit :=
   match pop with
   | [] => RErr RE_EMPTYPOP
-  | _ => if forallb (fun l => is_some (zassoc l cs)) pop then ROk tt else RErr RE_NOLEAF
+  | l0 :: _ => if forallb (fun l => is_some (zassoc l cs)) pop
+               then (if zero_row cs l0 then RErr RE_ZEROGENES else ROk tt)
+               else RErr RE_NOLEAF
   end.
 (* read_precomputed_stats: for level in as_leaves: for node in as_leaves[level]: aggregate_stats *)
 Fixpoint agg_all (cs : list (Z * (Z * list Z))) (pops : list (list Z)) : rres unit :=
